@@ -83,10 +83,12 @@ type query struct {
 type step = stepT
 
 type stepT struct {
-	Op  string   `json:"op"` // set | del | query
-	ID  string   `json:"id,omitempty"`
-	Obj *objSpec `json:"obj,omitempty"`
-	Q   *query   `json:"q,omitempty"`
+	Op   string   `json:"op"` // set | del | touch | query
+	ID   string   `json:"id,omitempty"`
+	Kind string   `json:"kind,omitempty"` // touch: fset | expire | persist (same geometry, new object)
+	Val  string   `json:"val,omitempty"`  // touch fset: value of field f
+	Obj  *objSpec `json:"obj,omitempty"`
+	Q    *query   `json:"q,omitempty"`
 }
 
 type history struct {
@@ -106,6 +108,9 @@ type backend interface {
 	reset()
 	set(id string, spec objSpec, obj geojson.Object) error
 	del(id string) error
+	// touch replaces the object by a new one with the very same geometry value
+	// and other fields / expiry, as FSET, EXPIRE and PERSIST do.
+	touch(id, kind, val string) error
 	// dataset is the full scan: every id with its geometry (nil = not a geometry).
 	dataset() map[string]geojson.Object
 	nearby(q query) ([]hit, error)
@@ -127,22 +132,64 @@ func (b *colBackend) dataset() map[string]geojson.Object {
 	})
 	return out
 }
+func (b *colBackend) touch(id, kind, val string) error {
+	old := b.col.Get(id)
+	if old == nil {
+		return nil
+	}
+	fields, expires := old.Fields(), old.Expires()
+	switch kind {
+	case "fset":
+		fields = fields.Set(field.Make("f", val))
+	case "expire":
+		expires = 1 << 62
+	case "persist":
+		if expires == 0 {
+			return nil // cmdPERSIST leaves such an object alone
+		}
+		expires = 0
+	}
+	// exactly what cmdFSET/cmdEXPIRE/cmdPERSIST do: same geometry value, new object
+	b.col.Set(object.New(id, old.Geo(), expires, fields))
+	return nil
+}
+
+// staleErr: a search delivered an object (or fields) that is not the current
+// one of that id.
+type staleErr struct{ msg string }
+
+func (e staleErr) Error() string { return e.msg }
+
 func (b *colBackend) nearby(q query) ([]hit, error) {
 	var hits []hit
+	var stale error
 	target := geojson.NewPoint(geometry.Point{X: pf(q.Lon), Y: pf(q.Lat)})
 	b.col.Nearby(target, nil, nil, func(o *object.Object, dist float64) bool {
 		hits = append(hits, hit{o.ID(), dist})
+		if cur := b.col.Get(o.ID()); cur != o && stale == nil {
+			what := "an id that Get does not know"
+			if cur != nil {
+				what = fmt.Sprintf("a superseded object (fields %v, current %v)", o.Fields(), cur.Fields())
+			}
+			stale = staleErr{fmt.Sprintf("result %d: Nearby delivered for %q %s", len(hits)-1, o.ID(), what)}
+		}
 		return len(hits) < q.K
 	})
-	return hits, nil
+	return hits, stale
 }
 
-type srvBackend struct{ c *t38.Conn }
+type srvBackend struct {
+	c    *t38.Conn
+	fld  map[string]string // model: current value of field f per id (SET keeps fields)
+	live map[string]bool
+	nTch int
+}
 
 func (b *srvBackend) reset() {
 	if v := b.c.MustDo("FLUSHDB"); v.IsErr() {
 		panic("FLUSHDB: " + v.String())
 	}
+	b.fld, b.live, b.nTch = map[string]string{}, map[string]bool{}, 0
 }
 func (b *srvBackend) set(id string, spec objSpec, obj geojson.Object) error {
 	v, err := b.c.Do(append([]string{"SET", theKey, id}, spec.Args...)...)
@@ -152,6 +199,31 @@ func (b *srvBackend) set(id string, spec objSpec, obj geojson.Object) error {
 	if v.Kind != '+' {
 		return fmt.Errorf("SET %s %v answered %s", id, spec.Args, v)
 	}
+	b.live[id] = true
+	return nil
+}
+
+func (b *srvBackend) touch(id, kind, val string) error {
+	var args []string
+	switch kind {
+	case "fset":
+		args = []string{"FSET", theKey, id, "f", val}
+	case "expire":
+		args = []string{"EXPIRE", theKey, id, "100000"}
+	default:
+		args = []string{"PERSIST", theKey, id}
+	}
+	v, err := b.c.Do(args...)
+	if err != nil {
+		return err
+	}
+	if v.Kind != ':' {
+		return fmt.Errorf("%v answered %s", args, v)
+	}
+	if kind == "fset" && b.live[id] {
+		b.fld[id] = val
+	}
+	b.nTch++
 	return nil
 }
 func (b *srvBackend) del(id string) error {
@@ -162,6 +234,8 @@ func (b *srvBackend) del(id string) error {
 	if v.IsErr() {
 		return fmt.Errorf("DEL %s answered %s", id, v)
 	}
+	delete(b.live, id)
+	delete(b.fld, id)
 	return nil
 }
 func (b *srvBackend) dataset() map[string]geojson.Object {
@@ -214,6 +288,37 @@ func (b *srvBackend) nearby(q query) ([]hit, error) {
 		}
 		hits = append(hits, hit{e.Arr[0].Str, d})
 	}
+	if b.nTch > 0 {
+		// the same query with an output that carries the fields: every returned
+		// object must show the current value of field f
+		fargs := []string{"NEARBY", theKey, "LIMIT", strconv.Itoa(q.K), "POINTS", "POINT", q.Lat, q.Lon}
+		if q.Radius != "" {
+			fargs = append(fargs, q.Radius)
+		}
+		fv, err := b.c.Do(fargs...)
+		if err != nil {
+			return nil, err
+		}
+		if fv.Kind != '*' || len(fv.Arr) != 2 || fv.Arr[1].Kind != '*' || len(fv.Arr[1].Arr) != len(hits) {
+			return hits, staleErr{fmt.Sprintf("the POINTS form of the query returned %s for %d results", fv, len(hits))}
+		}
+		for i, e := range fv.Arr[1].Arr {
+			if e.Kind != '*' || len(e.Arr) < 2 || e.Arr[0].Str != hits[i].ID {
+				return hits, staleErr{fmt.Sprintf("the POINTS form of the query returned element %s where IDS returned %q", e, hits[i].ID)}
+			}
+			got := ""
+			if len(e.Arr) == 3 && e.Arr[2].Kind == '*' {
+				for j := 0; j+1 < len(e.Arr[2].Arr); j += 2 {
+					if e.Arr[2].Arr[j].Str == "f" {
+						got = e.Arr[2].Arr[j+1].Str
+					}
+				}
+			}
+			if got != b.fld[hits[i].ID] {
+				return hits, staleErr{fmt.Sprintf("result %d: NEARBY shows field f=%q for %q, its current value is %q", i, got, hits[i].ID, b.fld[hits[i].ID])}
+			}
+		}
+	}
 	return hits, nil
 }
 
@@ -231,6 +336,8 @@ type machine struct {
 	nDel  int
 	nMove int
 	nextN int
+	// geometry-preserving updates (FSET/EXPIRE/PERSIST)
+	nTouch, touchSeq int
 }
 
 func newMachine(t ev.Failer, c *ev.Collector, be backend, level string) *machine {
@@ -294,6 +401,12 @@ func (m *machine) apply(st step) {
 			delete(m.live, st.ID)
 		}
 		m.mix("del", st.ID)
+	case "touch":
+		if err := m.be.touch(st.ID, st.Kind, st.Val); err != nil {
+			harnessErr("%v", err)
+		}
+		m.nTouch++
+		m.mix("touch", st.ID, st.Kind, st.Val)
 	case "query":
 		m.mix("query", st.Q.Lat, st.Q.Lon, strconv.Itoa(st.Q.K), st.Q.Radius)
 		m.query(*st.Q)
@@ -363,11 +476,18 @@ func (m *machine) query(q query) {
 	}
 	hits, err := m.be.nearby(q)
 	qs := fmt.Sprintf("NEARBY LIMIT %d POINT %s %s %s over %d objects (%d eligible; after %d deletes, %d overwrites)", q.K, q.Lat, q.Lon, q.Radius, len(ds), len(refs), m.nDel, m.nMove)
+	if se, ok := err.(staleErr); ok {
+		// checked after the other rules below would also fire; this one names the cause
+		c.Fail(m.t, "stale-object-returned", fmt.Sprintf("%s, %d FSET/EXPIRE/PERSIST updates: %s", qs, m.nTouch, se.msg), m.hist)
+	}
 	if err != nil {
 		if re, ok := err.(replyErr); ok {
 			fail("nearby-bad-reply", qs+": "+re.msg)
 		}
 		harnessErr("%v", err)
+	}
+	if m.nTouch > 0 {
+		c.Label("after-fset/expire/persist")
 	}
 	radius := -1.0
 	if q.Radius != "" {
@@ -599,6 +719,12 @@ func (m *machine) drawObject(t *rapid.T, p pool) objSpec {
 	return o
 }
 
+func (m *machine) drawTouch(t *rapid.T, id string) step {
+	kind := rapid.SampledFrom([]string{"fset", "expire", "persist", "fset"}).Draw(t, "touchkind")
+	m.touchSeq++
+	return step{Op: "touch", ID: id, Kind: kind, Val: strconv.Itoa(m.touchSeq)}
+}
+
 func generate(rt *rapid.T, m *machine, server bool, s sizes) {
 	p := drawPool(rt)
 	m.hist.Pool = p.Mode
@@ -653,6 +779,29 @@ func generate(rt *rapid.T, m *machine, server bool, s sizes) {
 				m.apply(step{Op: "del", ID: id})
 			}
 		},
+		"touch": func(t *rapid.T) {
+			// FSET/EXPIRE/PERSIST only keep the geometry value for objects that
+			// are not plain 2D points: prefer those
+			id := pickLive(t)
+			for try := 0; try < 3; try++ {
+				if pt, ok := m.live[id].(*geojson.Point); !ok || !pt.IsSimple() {
+					break
+				}
+				id = pickLive(t)
+			}
+			m.apply(m.drawTouch(t, id))
+		},
+		"bulk-touch": func(t *rapid.T) {
+			if len(m.ids) < 2 {
+				t.Skip()
+			}
+			cnt := rapid.IntRange(1, imin(len(m.ids), 100)).Draw(t, "cnt")
+			lo := rapid.IntRange(0, len(m.ids)-cnt).Draw(t, "lo")
+			victims := append([]string{}, m.ids[lo:lo+cnt]...)
+			for _, id := range victims {
+				m.apply(m.drawTouch(t, id))
+			}
+		},
 		"bulk-move": func(t *rapid.T) {
 			if len(m.ids) < 2 {
 				t.Skip()
@@ -686,7 +835,7 @@ func generate(rt *rapid.T, m *machine, server bool, s sizes) {
 	rad(rt)
 }
 
-const ruleText = "history = bulk load of n objects (POINT, POINT z, HASH, BOUNDS, Polygon, LineString, MultiPoint, Feature, small circle objects, empty collections, STRING) over a coordinate pool (uniform world, 1e0..1e-9 clusters with duplicates, |lat|>85 caps incl. both poles, |lon|>175 incl. +-180, 5-degree grid), then a rapid state machine of set-new / move / delete / bulk-delete / bulk-move / bulk-insert / query actions; query point = an object position, next to one, a pole, the antimeridian or anywhere; k in {1, small, n/2, n, n+1, random}; radius absent or midway inside a gap of the sorted true distances (gap > 8x tolerance). One evaluation = one NEARBY compared with the reference distances (own haversine; brute-force distance to the bounding rectangle for extended objects) of the full scan: every result an eligible object once, |reported - reference| <= 1e-6 m + 1e-9 d (points) / 1e-4 m + 1e-8 d (extended) + conditioning term towards the antipode, reported distances non-decreasing up to 1e-6 m + 1e-12 d (+ conditioning), result count = min(k, objects within radius), radius queries return exactly the objects within r, and the sorted reference distances of the results equal the smallest ones of the collection. Non-trivial: objects >= 2 x results, >= 1 delete and >= 1 overwrite before the query, and the first object not returned is < 1 % farther than the last returned; distinct by hash of (history, query)."
+const ruleText = "history = bulk load of n objects (POINT, POINT z, HASH, BOUNDS, Polygon, LineString, MultiPoint, Feature, small circle objects, empty collections, STRING) over a coordinate pool (uniform world, 1e0..1e-9 clusters with duplicates, |lat|>85 caps incl. both poles, |lon|>175 incl. +-180, 5-degree grid), then a rapid state machine of set-new / move / touch and bulk-touch (FSET, EXPIRE, PERSIST: same geometry value in a new object) / delete / bulk-delete / bulk-move / bulk-insert / query actions; query point = an object position, next to one, a pole, the antimeridian or anywhere; k in {1, small, n/2, n, n+1, random}; radius absent or midway inside a gap of the sorted true distances (gap > 8x tolerance). One evaluation = one NEARBY compared with the reference distances (own haversine; brute-force distance to the bounding rectangle for extended objects) of the full scan: every result an eligible object once and the current object of its id (in-package: pointer identity with Get; server: field f in the POINTS form of the query equals the last FSET), |reported - reference| <= 1e-6 m + 1e-9 d (points) / 1e-4 m + 1e-8 d (extended) + conditioning term towards the antipode, reported distances non-decreasing up to 1e-6 m + 1e-12 d (+ conditioning), result count = min(k, objects within radius), radius queries return exactly the objects within r, and the sorted reference distances of the results equal the smallest ones of the collection. Non-trivial: objects >= 2 x results, >= 1 delete and >= 1 overwrite before the query, and the first object not returned is < 1 % farther than the last returned; distinct by hash of (history, query)."
 
 func TestC13_Collection(t *testing.T) {
 	c := ev.New("C13", "collection", "exploration")
